@@ -392,10 +392,18 @@ pub fn run_receiver(events: &[TracingEvent], filter: Option<&HFilter>, mode: Mod
         // not the receiver's
         let mark = rec.mark();
         let mut receiver = TracingEventReceiver::default();
-        for e in events {
-            match catch_unwind(AssertUnwindSafe(|| receiver.try_receive(e.clone()))) {
+        for (k, e) in events.iter().enumerate() {
+            // every second event goes through `receive()`, the wrapper that panics where
+            // `try_receive()` returns an error
+            let outcome = if k % 2 == 1 {
+                catch_unwind(AssertUnwindSafe(|| receiver.receive(e.clone()))).map(Ok)
+            } else {
+                catch_unwind(AssertUnwindSafe(|| receiver.try_receive(e.clone()).map_err(|_| ())))
+            };
+            match outcome {
                 Ok(Ok(())) => {}
-                Ok(Err(_)) => rejected += 1,
+                Ok(Err(())) => rejected += 1,
+                Err(_) if k % 2 == 1 => rejected += 1,
                 Err(_) => {
                     panicked = true;
                     break;
